@@ -16,10 +16,17 @@ def walk(n, fn, parents=None):
         fn(n, parents)
         parents.append(n)
     for k, v in n.items():
-        if isinstance(v, (dict, list)):
-            walk(v, fn, parents)
+        if isinstance(v, (dict, list)) and not k.startswith("_"):
+            walk(v, fn, parents)     # keys starting with "_" are caches the interpreters hang on nodes, not program text
     if has_k:
         parents.pop()
+
+
+def within(root, node):
+    """node (or, for a node an interpreter synthesised from another one - a boolean `match` read as an `if` - the node it
+    stands for) occurs in the tree under root"""
+    of = node.get("_of_id") if isinstance(node, dict) else None
+    return contains(root, lambda x: x is node or (of is not None and id(x) == of))
 
 
 def find(n, pred):
